@@ -170,13 +170,9 @@ def run(ctx: Ctx):
     ctx.extra["reserved_names"] = R
 
     ctx.rule("R19.b", "post-processing of emitted code replaces whole words only (an identifier containing `true` / `false` survives)", floor=1)
-    from .c02 import regex_is_whole_word
+    from .c02 import check_bool_to_int
 
-    b2i = sm.func("codegen/c.py", "bool_to_int")
-    subs = [c for c in ast.walk(b2i.node) if isinstance(c, ast.Call) and (dotted(c.func) or "") == "re.sub"]
-    table = {const_str(c.args[0]): const_str(c.args[1]) for c in subs}
-    okw = len(table) == 2 and any(p and regex_is_whole_word(p, "true") and r == "1" for p, r in table.items()) and any(p and regex_is_whole_word(p, "false") and r == "0" for p, r in table.items())
-    ctx.check(okw, "R19.b", b2i.key(), r"\btrue\b -> 1, \bfalse\b -> 0", f"bool_to_int rewrites {table}: identifiers that contain, start or end with `true` / `false` are corrupted in C conditionals", b2i.where())
+    check_bool_to_int(ctx, "R19.b", "identifiers that contain, start or end with `true` / `false` are corrupted in C conditionals")
 
     ctx.rule("R19.c", "the Myokit importer renames clashing names consistently at both sites", floor=2)
     my = sm.module("myokit.py")
